@@ -1,5 +1,6 @@
 (* Property C07 — a restored wallet recovers its full history, even while the chain moves.
-   Only statements here; proofs are in Ledger/ImportProofs.v.
+   Only statements here; proofs are in Ledger/ImportProofs.v (static chain) and Ledger/ImportProofs2.v
+   (moving chain).
    Model: Ledger/Import.v (status ready | importing cursor | removing; owner function restricted to
    ready wallets; [import_batch] = one commit of asyncImport over the heights (cursor, min(cursor+B, best)],
    parametric in the batch size B; ErrImportingContinuable / ErrChainReorg = retry,
@@ -10,6 +11,7 @@ Import ListNotations.
 Open Scope Z_scope.
 Require Import MW.Ledger.Model MW.Ledger.Spec MW.Ledger.Run MW.Ledger.WF MW.Ledger.Import MW.Ledger.Remove.
 Require Import MW.Ledger.Proofs MW.Ledger.ImportProofs.
+Require Import MW.Ledger.Proofs3 MW.Ledger.Proofs4 MW.Ledger.Proofs5 MW.Ledger.ImportProofs2.
 
 (* ------------------------------------------------------------------ T1: import = live *)
 
@@ -27,10 +29,11 @@ Require Import MW.Ledger.Proofs MW.Ledger.ImportProofs.
    - after more than height/B batches it IS ready;
    - until then it cannot be selected.
    _partial: the node's chain is c during the whole rescan and the wallet database holds no other
-   wallet's credits.  Reorganisations and new tips processed between batches, batches that read a
-   chain the handler has not been told about yet, and other wallets in the same database are
-   covered by the correspondence check (harness/cmd/c07), by C07_cursor_pull_back and
-   C07_unready_until_done, and — where the code fails — by C07_import_abandoned_refuted. *)
+   wallet's credits.  SUBSUMED (for the repaired code) by C07_import_equals_live / C07_import_live
+   below, which let the chain move: blocks connected and disconnected on the node, announcements
+   processed (extensions, reorganisations with the cursor pull-back, roll-backs to an old block)
+   between batches, batches that read a chain the handler has not been told about yet.  Other wallets
+   in the same database remain covered by the correspondence check (harness/cmd/c07) only. *)
 Theorem C07_import_equals_live_partial : forall fx p B c w own st0 j,
   wf_chain c -> 0 < B -> importing p c w own 0 st0 ->
   let st := batches fx p B c st0 w j in
@@ -197,3 +200,267 @@ Example C07_T1_instance :
   let s := xrun repaired p0 2 20000 old_chain [XImportStart 1 7 [1%N]; XBatch 1; XBatch 1] in
   status_of (xs_st s) 1 = Some WReady /\ r_total (xreport (xs_st s) 1) = 10.
 Proof. vm_compute. split; reflexivity. Qed.
+
+(* ================================================================== T1 in general: the chain moves *)
+
+(* Histories.  [xrun repaired p B cap n0 (XImportStart w pass (sh :: shs) :: h)]: an instance starts on the
+   node's chain n0 with no wallet, wallet w is restored (discovered script hashes sh :: shs), then the
+   events of h happen in ANY order:
+     XAttach b / XDetach   the node connects / disconnects a best block,
+     XProcess b            the handler processes the (queued) announcement of b NOW — against whatever
+                           chain the node has at that moment: extension, reorganisation (cursor pulled
+                           back), roll-back to an old block of its own chain, or refusal,
+     XBatch w              the worker runs one rescan batch — reading the node's chain as it is NOW,
+                           which may be ahead of, or on another branch than, the handler's chain.
+   [xwf p g U w B cap s0 h] (Ledger/ImportProofs2.v, [ev_ok]) is the environment assumption, event by event:
+     - blocks come from a universe U in which a block id names one block; the node's chain stays
+       well formed ([wf_chain], C01's E1/E4); the genesis is never announced;
+     - NO BOUNCE: the node does not connect a block that the handler still has as its synced block of
+       that height ([matched] = false), i.e. the node does not come back to a block it disconnected
+       before the handler was told about the disconnection.  [C07_fresh_history_ok]: this holds in
+       particular when the node never connects a block twice.  Without it the statement is FALSE of
+       the model (and, the model following asyncImport, presumably of the code): C07_import_bounce_refuted.
+   Restriction kept from the partial theorem: the database holds no other wallet's keys.
+
+   [sinv] is the invariant (a): the handler is not crashed, the node's chain is well formed, and for the
+   chain c the handler follows ([xinv p g U w keys c n st]): the store's synced chain is c; the import
+   task is alive ([x_dead] empty); every credit and every spent mark is covered by a block record
+   (so that the record-driven Rollback is [rollback_credits]); with top = the cursor (importing) or
+   the height of c (ready), EITHER
+     clean   the credits are exactly those of the first top+1 blocks of c for the wallet's addresses
+             ([importing] of the partial theorem, generalised), every block record names a block of c;
+     OR doomed — this is what holds "in between", after a batch has read a chain the handler had not
+             been told about: for some j < top the store rolled back to j is exact (what is above j
+             is what the batch read on the other branch), and the handler's block of height j+1 is no
+             longer on the node's chain: the handler cannot extend its chain; the first announcement it
+             accepts is a reorganisation to height <= j (or a roll-back on its own chain), which
+             deletes everything above j and pulls the cursor back: clean again.
+   A batch answers IOk (committed) or IRetry (nothing changed: previous transaction not found, block
+   record of another block at that height, spend of a coin it does not have); never IAbandon
+   (C07_batch_never_abandons). *)
+
+(* (a) + (b): at every point of every such history the invariant holds; whenever the handler has processed
+   the node's tip ([in_step]) and the wallet is ready, the WHOLE ledger is exactly the ledger of a wallet
+   with the same addresses that followed the node's current chain live from genesis, and the report is the
+   chain specification; until ready the wallet cannot be selected; the task is never dropped *)
+Theorem C07_import_equals_live : forall p g U w pass sh shs B cap n0 h,
+  (forall b1 b2, In b1 U -> In b2 U -> b_id b1 = b_id b2 -> b1 = b2) -> 0 < B ->
+  wf_chain n0 -> from_g g n0 -> incl n0 U ->
+  xwf p g U w B cap (xrun repaired p B cap n0 [XImportStart w pass (sh :: shs)]) h ->
+  let s := xrun repaired p B cap n0 (XImportStart w pass (sh :: shs) :: h) in
+  let own := own_w (xs_st s) w in
+  sinv p g U w (keys_of w (sh :: shs)) s /\
+  (in_step g s -> status_of (xs_st s) w = Some WReady ->
+     ledger_of_chain p true own (xs_node s) = Ok (x_w (xs_st s)) /\
+     xreport (xs_st s) w = spec_report p own (xs_node s) w) /\
+  (status_of (xs_st s) w <> Some WReady -> use_wallet (xs_st s) w = UUnready) /\
+  x_dead (xs_st s) = [] /\ xs_crashed s = false.
+Proof. exact import_equals_live_moving. Qed.
+Print Assumptions C07_import_equals_live.
+
+(* the same invariant when the handler follows another chain (c0) than the node (n0) at the moment the
+   wallet is restored *)
+Theorem C07_import_moving_from : forall p g U w pass sh shs B cap c0 n0 all0 st1 h,
+  (forall b1 b2, In b1 U -> In b2 U -> b_id b1 = b_id b2 -> b1 = b2) -> 0 < B ->
+  wf_chain c0 -> from_g g c0 -> incl c0 U -> wf_chain n0 -> from_g g n0 -> incl n0 U ->
+  import_start (xinit c0) w pass (sh :: shs) = Some st1 ->
+  let s0 := {| xs_node := n0; xs_st := st1; xs_all := all0; xs_crashed := false |} in
+  xwf p g U w B cap s0 h ->
+  sinv p g U w (keys_of w (sh :: shs)) (fold_left (xstep repaired p B cap) h s0).
+Proof. exact import_moving_from. Qed.
+Print Assumptions C07_import_moving_from.
+
+(* what (b) follows from: invariant + in step + ready *)
+Theorem C07_invariant_gives_ledger : forall p g U w keys s,
+  (forall b1 b2, In b1 U -> In b2 U -> b_id b1 = b_id b2 -> b1 = b2) ->
+  sinv p g U w keys s -> in_step g s -> status_of (xs_st s) w = Some WReady ->
+  let own := own_w (xs_st s) w in
+  ledger_of_chain p true own (xs_node s) = Ok (x_w (xs_st s)) /\
+  xreport (xs_st s) w = spec_report p own (xs_node s) w.
+Proof. intros p g U w keys s Uids. exact (sinv_correct p g U Uids w keys s). Qed.
+Print Assumptions C07_invariant_gives_ledger.
+
+(* (a), in step: a wallet that is still importing is in the state [importing] of the partial theorem, for
+   the node's current chain and its current cursor *)
+Theorem C07_in_step_importing : forall p g U w keys s k,
+  (forall b1 b2, In b1 U -> In b2 U -> b_id b1 = b_id b2 -> b1 = b2) ->
+  sinv p g U w keys s -> in_step g s -> status_of (xs_st s) w = Some (WImporting k) ->
+  importing p (xs_node s) w (own_w (xs_st s) w) k (xs_st s).
+Proof. exact sinv_importing. Qed.
+Print Assumptions C07_in_step_importing.
+
+(* the handler side of liveness: from EVERY reachable state the announcement of the node's best block is
+   accepted (as an extension or a reorganisation); afterwards the handler is in step, and a ready wallet has
+   the ledger of the node's chain (C01's history theorem, for the restored wallet) *)
+Theorem C07_process_tip_in_step : forall p g U w pass sh shs B cap n0 h b,
+  (forall b1 b2, In b1 U -> In b2 U -> b_id b1 = b_id b2 -> b1 = b2) -> 0 < B ->
+  wf_chain n0 -> from_g g n0 -> incl n0 U ->
+  xwf p g U w B cap (xrun repaired p B cap n0 [XImportStart w pass (sh :: shs)]) h ->
+  last (xs_node (xrun repaired p B cap n0 (XImportStart w pass (sh :: shs) :: h))) g = b -> b <> g ->
+  let s := xrun repaired p B cap n0 (XImportStart w pass (sh :: shs) :: h ++ [XProcess b]) in
+  let own := own_w (xs_st s) w in
+  in_step g s /\
+  (status_of (xs_st s) w = Some WReady ->
+     ledger_of_chain p true own (xs_node s) = Ok (x_w (xs_st s)) /\
+     xreport (xs_st s) w = spec_report p own (xs_node s) w).
+Proof. exact import_moving_process_tip. Qed.
+Print Assumptions C07_process_tip_in_step.
+
+(* (c) liveness: from any reachable point where the handler is in step, if the chain stays as it is and m
+   batches are scheduled, the wallet is ready — with the ledger of the node's chain — as soon as
+   cursor + m * B exceeds the chain height, i.e. after at most (height - cursor) / B + 1 batches.
+   No reachable state is dead: [x_dead] is empty and every batch in step commits (C07_batch_in_step). *)
+Theorem C07_import_live : forall p g U w pass sh shs B cap n0 h m,
+  (forall b1 b2, In b1 U -> In b2 U -> b_id b1 = b_id b2 -> b1 = b2) -> 0 < B ->
+  wf_chain n0 -> from_g g n0 -> incl n0 U ->
+  xwf p g U w B cap (xrun repaired p B cap n0 [XImportStart w pass (sh :: shs)]) h ->
+  let s := xrun repaired p B cap n0 (XImportStart w pass (sh :: shs) :: h) in
+  in_step g s ->
+  (forall k, status_of (xs_st s) w = Some (WImporting k) -> chain_height (xs_node s) < k + Z.of_nat m * B) ->
+  let s' := xrun repaired p B cap n0 (XImportStart w pass (sh :: shs) :: h ++ repeat (XBatch w) m) in
+  let own := own_w (xs_st s') w in
+  xs_node s' = xs_node s /\ in_step g s' /\ status_of (xs_st s') w = Some WReady /\
+  ledger_of_chain p true own (xs_node s') = Ok (x_w (xs_st s')) /\
+  xreport (xs_st s') w = spec_report p own (xs_node s') w.
+Proof. exact import_live_moving. Qed.
+Print Assumptions C07_import_live.
+
+(* one batch in step: it commits, the cursor advances by B or the wallet is handed over *)
+Theorem C07_batch_in_step : forall p g U w keys B n st k, 0 < B ->
+  xinv p g U w keys n n st -> status_of st w = Some (WImporting k) ->
+  let stop := Z.min (k + B) (chain_height n) in
+  snd (import_batch repaired p B n st w) = IOk /\
+  status_of (fst (import_batch repaired p B n st w)) w =
+    Some (if stop =? chain_height n then WReady else WImporting stop).
+Proof. exact batch_progress. Qed.
+Print Assumptions C07_batch_in_step.
+
+(* the steps of the invariant, event by event *)
+Theorem C07_batch_keeps_invariant : forall p g U, (forall b1 b2, In b1 U -> In b2 U -> b_id b1 = b_id b2 -> b1 = b2) ->
+  forall w keys B c n st, ninv g U n -> 0 < B -> xinv p g U w keys c n st ->
+  xinv p g U w keys c n (fst (import_batch repaired p B n st w)).
+Proof. exact batch_inv. Qed.
+Print Assumptions C07_batch_keeps_invariant.
+
+Theorem C07_announcement_keeps_invariant : forall p g U, (forall b1 b2, In b1 U -> In b2 U -> b_id b1 = b_id b2 -> b1 = b2) ->
+  forall w keys, (forall sh v, lookupN keys sh = Some v -> v = w) ->
+  forall c n st b st', ninv g U n -> xinv p g U w keys c n st -> In b U -> b <> g ->
+  xprocess repaired p n st b = XOk st' ->
+  exists c', xinv p g U w keys c' n st' /\ incl c' (c ++ n).
+Proof. exact xprocess_inv. Qed.
+Print Assumptions C07_announcement_keeps_invariant.
+
+Theorem C07_node_block_always_accepted : forall p g U, (forall b1 b2, In b1 U -> In b2 U -> b_id b1 = b_id b2 -> b1 = b2) ->
+  forall w keys, (forall sh v, lookupN keys sh = Some v -> v = w) ->
+  forall c n st b n1 n2, ninv g U n -> xinv p g U w keys c n st -> n = n1 ++ b :: n2 -> n1 <> [] ->
+  exists st', xprocess repaired p n st b = XOk st' /\ xinv p g U w keys (n1 ++ [b]) n st'.
+Proof. exact xprocess_on_node. Qed.
+Print Assumptions C07_node_block_always_accepted.
+
+Theorem C07_batch_never_abandons : forall p B n st w,
+  snd (import_batch repaired p B n st w) <> IAbandon /\ x_dead (fst (import_batch repaired p B n st w)) = x_dead st.
+Proof. exact batch_never_abandons. Qed.
+Print Assumptions C07_batch_never_abandons.
+
+(* the environment assumption in purely environmental terms: it holds for every history in which the node
+   never connects a block twice, nor a block of the initial chain again ([xwf_fresh], [ev_fresh]) *)
+Theorem C07_fresh_history_ok : forall p g U w pass sh shs B cap n0 h,
+  (forall b1 b2, In b1 U -> In b2 U -> b_id b1 = b_id b2 -> b1 = b2) -> 0 < B ->
+  wf_chain n0 -> from_g g n0 -> incl n0 U ->
+  xwf_fresh p g U w B cap n0 (xrun repaired p B cap n0 [XImportStart w pass (sh :: shs)]) h ->
+  xwf p g U w B cap (xrun repaired p B cap n0 [XImportStart w pass (sh :: shs)]) h.
+Proof. exact xwf_of_fresh_run. Qed.
+Print Assumptions C07_fresh_history_ok.
+
+(* ------------------------------------------------------------------ without "no bounce" the statement is false *)
+
+(* Repaired code, batch size 1000.  Chain g0-1-2-3-4 (block 1 pays the wallet 10); the handler is in step.
+   The node reorganises to 1-2-3'-4' (3' pays the wallet 77): the announcements are queued.  The rescan
+   batch runs now: it reads heights 1..4 of the node's chain — 3' and 4' — commits, and hands the wallet
+   over (4 = the handler's height).  Before the handler is told anything the node goes back: 4' and 3'
+   disconnected, 3, 4 and a new block 5 connected.  The handler then processes every announcement in the
+   order they were queued: 3' and 4' are refused (no longer on the node), 3 is "already synced" (nothing
+   above it is rolled back below height 4), 4 and 5 extend.  The handler is in step with the node, the
+   wallet is ready — and holds the 77 of block 3', which is not on the chain.  Nothing repairs it later:
+   no announcement ever makes the handler roll back below height 4. *)
+Definition b3 := {| b_id := 3; b_prev := 2; b_height := 3; b_txs := [cb 3 []] |}.
+Definition b4 := {| b_id := 4; b_prev := 3; b_height := 4; b_txs := [cb 4 []] |}.
+Definition b5 := {| b_id := 5; b_prev := 4; b_height := 5; b_txs := [cb 5 []] |}.
+Definition c3' := {| b_id := 13; b_prev := 2; b_height := 3; b_txs := [cb 13 [pay 1 77]] |}.
+Definition c4' := {| b_id := 14; b_prev := 13; b_height := 4; b_txs := [cb 14 []] |}.
+Definition c5' := {| b_id := 15; b_prev := 14; b_height := 5; b_txs := [cb 15 []] |}.
+Definition U_bounce : list block := old_chain ++ [b5; c3'; c4'; c5'].
+Definition hist_bounce_pre : list xevent :=
+  [XDetach; XDetach; XAttach c3'; XAttach c4'; XBatch 1; XDetach; XDetach].
+Definition hist_bounce : list xevent :=
+  hist_bounce_pre ++ [XAttach b3; XAttach b4; XAttach b5;
+                      XProcess c3'; XProcess c4'; XProcess b3; XProcess b4; XProcess b5; XBatch 1].
+
+Theorem C07_import_bounce_refuted :
+  let s0 := xrun repaired p0 1000 20000 old_chain [XImportStart 1 7 [1%N]] in
+  let s1 := xrun repaired p0 1000 20000 old_chain (XImportStart 1 7 [1%N] :: hist_bounce_pre) in
+  let s := xrun repaired p0 1000 20000 old_chain (XImportStart 1 7 [1%N] :: hist_bounce) in
+  (* everything but "no bounce" holds along the history: the prefix is well formed, the next event connects
+     block 3 again, which the handler still has as synced *)
+  xwf p0 g0 U_bounce 1 1000 20000 s0 hist_bounce_pre /\
+  wf_chain (xs_node s1 ++ [b3]) /\ matched (x_w (xs_st s1)) b3 = true /\
+  (* at the end: *)
+  wf_chain (xs_node s) /\ in_step g0 s /\ status_of (xs_st s) 1 = Some WReady /\
+  r_total (xreport (xs_st s) 1) = 87 /\
+  r_total (spec_report p0 (own_w (xs_st s) 1) (xs_node s) 1) = 10.
+Proof.
+  cbv zeta. split; [apply xwf_b_sound; vm_compute; reflexivity|].
+  split; [apply wf_chain_b_sound; vm_compute; reflexivity|].
+  split; [vm_compute; reflexivity|].
+  split; [apply wf_chain_b_sound; vm_compute; reflexivity|].
+  vm_compute. repeat split; reflexivity.
+Qed.
+Print Assumptions C07_import_bounce_refuted.
+
+(* ------------------------------------------------------------------ the hypotheses are satisfiable *)
+
+(* batch size 2, the reorganisation of [hist_abandon] between batches: the second batch reads the new
+   branch before the handler is told, meets the spend of a coin it does not have and is retried; the
+   announcement is processed (cursor pulled back to 1); three more batches: ready, in step, correct *)
+Definition U_moving : list block := old_chain ++ [b2'; b3'; b4'; b5'].
+Definition hist_moving : list xevent :=
+  [XBatch 1; XDetach; XDetach; XDetach; XAttach b2'; XAttach b3'; XAttach b4'; XAttach b5';
+   XBatch 1; XProcess b5'; XBatch 1; XBatch 1; XBatch 1].
+
+Example C07_moving_instance :
+  (forall b1 b2, In b1 U_moving -> In b2 U_moving -> b_id b1 = b_id b2 -> b1 = b2) /\
+  wf_chain old_chain /\ from_g g0 old_chain /\ incl old_chain U_moving /\
+  xwf p0 g0 U_moving 1 2 20000 (xrun repaired p0 2 20000 old_chain [XImportStart 1 7 [1%N]]) hist_moving /\
+  xwf_fresh p0 g0 U_moving 1 2 20000 old_chain (xrun repaired p0 2 20000 old_chain [XImportStart 1 7 [1%N]]) hist_moving /\
+  let s := xrun repaired p0 2 20000 old_chain (XImportStart 1 7 [1%N] :: hist_moving) in
+  in_step g0 s /\ status_of (xs_st s) 1 = Some WReady /\ chain_height (xs_node s) = 5 /\
+  r_total (xreport (xs_st s) 1) = 10.
+Proof.
+  split; [apply ids_b_sound; vm_compute; reflexivity|].
+  split; [apply wf_chain_b_sound; vm_compute; reflexivity|].
+  split; [eexists; reflexivity|].
+  split; [apply incl_appl; apply incl_refl|].
+  split; [apply xwf_b_sound; vm_compute; reflexivity|].
+  split; [apply xwf_fresh_b_sound; vm_compute; reflexivity|].
+  vm_compute. repeat split; reflexivity.
+Qed.
+
+(* batch size 1000: the single batch runs while the node is already on the other branch (3' pays the wallet
+   77) and the handler is not: it commits what it read there and hands the wallet over — the store is
+   "doomed", not yet right for the handler's chain; the announcement of 5' reorganises, and the ledger is
+   that of the node's chain *)
+Definition hist_other_branch : list xevent :=
+  [XDetach; XDetach; XAttach c3'; XAttach c4'; XAttach c5'; XBatch 1; XProcess c5'].
+
+Example C07_moving_instance_other_branch :
+  xwf p0 g0 U_bounce 1 1000 20000 (xrun repaired p0 1000 20000 old_chain [XImportStart 1 7 [1%N]]) hist_other_branch /\
+  (let s := xrun repaired p0 1000 20000 old_chain (XImportStart 1 7 [1%N] :: removelast hist_other_branch) in
+   status_of (xs_st s) 1 = Some WReady /\ fst (tip (x_w (xs_st s))) = 4 /\ ~ in_step g0 s /\
+   r_total (xreport (xs_st s) 1) = 87) /\
+  (let s := xrun repaired p0 1000 20000 old_chain (XImportStart 1 7 [1%N] :: hist_other_branch) in
+   in_step g0 s /\ status_of (xs_st s) 1 = Some WReady /\
+   xreport (xs_st s) 1 = spec_report p0 (own_w (xs_st s) 1) (xs_node s) 1 /\ r_total (xreport (xs_st s) 1) = 87).
+Proof.
+  split; [apply xwf_b_sound; vm_compute; reflexivity|].
+  split; vm_compute; repeat split; try reflexivity. discriminate.
+Qed.
